@@ -8,22 +8,23 @@ import SupervisorModel.Model.Sup
 namespace Sv.Sup
 open Sv Sv.Proc Sv.Gen.Proc
 
-def parseProg (t : String) : Option PE :=
+def parseProg (t : String) : Option (PE × Bool) :=
   match t.splitOn "/" with
-  | [gid, gprio, name, pprio, ss, sr, as, ar, ecs, ssig, sws, sag, kag] => do
+  | [gid, gprio, name, pprio, ss, sr, as, ar, ecs, ssig, sws, sag, kag, late] => do
     let exitcodes ← (if ecs = "-" then some [] else (ecs.splitOn ".").mapM String.toInt?)
     let cfg : Cfg := {
       startsecs := ← ss.toInt?, startretries := ← sr.toInt?, autostart := as == "1",
       autorestart := ← parseAuto ar, exitcodes := exitcodes, stopsignal := ← ssig.toInt?,
       stopwaitsecs := ← sws.toInt?, stopasgroup := sag == "1", killasgroup := kag == "1" }
-    pure { name := ← name.toNat?, gid := ← gid.toNat?, gprio := ← gprio.toInt?, prio := ← pprio.toInt?, cfg := cfg }
+    pure ({ name := ← name.toNat?, gid := ← gid.toNat?, gprio := ← gprio.toInt?, prio := ← pprio.toInt?, cfg := cfg }, late == "1")
   | _ => none
 
 def parseCase (args : List String) : Option Sup := do
   let progs ← (args.filter (·.startsWith "prog=")).mapM fun a => parseProg (a.drop 5).toString
   -- process_groups insertion order: group by group (first appearance), members in the order given
-  let gids := (groupsOf progs).map (·.1)
-  pure { procs := gids.flatMap fun g => members progs g }
+  let active := (progs.filter (!·.2)).map (·.1)
+  let gids := (groupsOf active).map (·.1)
+  pure { procs := gids.flatMap fun g => members active g, dormant := (progs.filter (·.2)).map (·.1) }
 
 def parseList {α : Type} (s : String) (sep : String) (f : String → Option α) : Option (List α) :=
   if s = "-" then some [] else (s.splitOn sep).mapM f
@@ -38,6 +39,8 @@ def parseRpc (s : String) : Option Rpc :=
   | ["start", id, _, n, w, m] => do pure (.start (← id.toNat?) (← n.toNat?) (w == "1") (m == "1"))
   | ["stop", id, _, n, w] => do pure (.stop (← id.toNat?) (← n.toNat?) (w == "1"))
   | ["signal", id, _, n, sig] => do pure (.signal (← id.toNat?) (← n.toNat?) (← sig.toInt?))
+  | ["addgroup", id, g] => do pure (.addGroup (← id.toNat?) (← g.toNat?))
+  | ["removegroup", id, g] => do pure (.removeGroup (← id.toNat?) (← g.toNat?))
   | ["shutdown", id] => do pure (.shutdown (← id.toNat?))
   | ["restart", id] => do pure (.restart (← id.toNat?))
   | _ => none
